@@ -31,7 +31,7 @@ STUBS = ["np facade in pylife.materiallaws.woehlercurve and pylife.strength.mine
          "isfinite/power element-wise); x**(1/4) in effective_damage_sum is an arbitrary positive real (over-approximation)"]
 ASSUMPTIONS = ["floats are modelled as reals", "slope k_1 is a concrete integer from {3, 4, 5} so that x**k is a polynomial; "
                "SD, ND > 0, amplitudes > 0 and cycle counts >= 0 (zero allowed) are symbolic",
-               "failure probability 0.5, TN = TS = 1 (scatter is C08's subject)",
+               "failure probability 0.5 and TN = TS = 1, plus two concrete (TN, TS, failure probability) sets for the Gassner clause",
                "the collective is a LoadCollective DataFrame (range/mean/cycles); histogram collectives need concrete class mids"]
 OUTSIDE = "non-integer slopes; more classes than the bound; IntervalIndex histograms; float rounding"
 RULE = ("one evaluation = one explored path (position of every amplitude relative to SD, order of amplitudes, which "
@@ -69,6 +69,11 @@ def cases(tier):
                 if m >= 3:
                     c["_split"] = 4
                 out.append(c)
+        # curves given for another failure probability, with scatter (damage is evaluated at 50 %)
+        for m in (1, 2):
+            for rule in ("elementary", "haibach"):
+                for scatter in ([4.0, 1.25, 0.1], [3.0, 1.0, 0.9]):
+                    out.append({"kind": "gassner", "rule": rule, "k": k, "m": m, "scatter": scatter, "_weight": 6 ** m})
         out.append({"kind": "eff", "k": k, "m": 2, "_weight": 5})
     for c in out:
         if c.get("_split") is None:
@@ -107,8 +112,11 @@ def _collective(ctx, S, n, index=None):
     return df.load_collective
 
 
-def _curve(ctx, k1, k2, SD, ND):
-    return pd.Series({"k_1": float(k1), "k_2": k2, "SD": SD, "ND": ND}, dtype=object if ctx.sym else np.float64)
+def _curve(ctx, k1, k2, SD, ND, scatter=None):
+    d = {"k_1": float(k1), "k_2": k2, "SD": SD, "ND": ND}
+    if scatter is not None:
+        d["TN"], d["TS"], d["failure_probability"] = scatter
+    return pd.Series(d, dtype=object if ctx.sym else np.float64)
 
 
 def _sum(xs):
@@ -172,7 +180,7 @@ def run(ctx, case):
         rule = case["rule"]
         ctx.assume(_sum(n) > 0)
         k2 = float(k) if rule == "elementary" else 2.0 * k - 1.0
-        curve = _curve(ctx, k, k2, SD, ND)
+        curve = _curve(ctx, k, k2, SD, ND, case.get("scatter"))
         coll = _collective(ctx, S, n)
         acc = curve.gassner_miner_elementary if rule == "elementary" else curve.gassner_miner_haibach
         G = acc.gassner_cycles(coll)
